@@ -10,9 +10,9 @@ using RP = celma::common::ReadCountPolicy; using WP = celma::common::WriteCountP
 using RP = celma::common::EmptyReadPolicy; using WP = celma::common::EmptyWritePolicy;
 #endif
 extern "C" unsigned long vh_read(unsigned char* dst, unsigned long maxlen);   // harness: environment source
-extern "C" void vh_write(const unsigned char* src, unsigned long len);         // harness: environment sink
+extern "C" int vh_write(const unsigned char* src, unsigned long len);          // harness: environment sink; != 0: the sink cannot write (nothing was written)
 struct RB : celma::common::ReadBuffer<BN, RP> { size_t readData(unsigned char* d, size_t l) override { return vh_read(d, l); } };
-struct WB : celma::common::WriteBuffer<BN, WP> { void writeData(const unsigned char* const d, size_t l) const override { vh_write(d, l); } };
+struct WB : celma::common::WriteBuffer<BN, WP> { void writeData(const unsigned char* const d, size_t l) const override { if (vh_write(d, l) != 0) throw std::runtime_error("sink cannot write"); } };
 namespace {
 // layout twins (Itanium ABI: vptr, non-polymorphic base P, then the members)
 #ifdef COUNTING
